@@ -215,8 +215,8 @@ CHECKS = {
              "in-contract inputs (all dtypes of each gufunc signature, values up to the int16 limit, gaps, all-missing, cubes, groups, "
              "zones), integers equal (+-1 at ties), float64 to 1e-9, float32 to single precision; the parallel cube smoother repeatedly on "
              "a multi-row cube; digamma / gammainc / ndtri from nopython code vs scipy.special bit for bit. Theorems (Props/C13.v, Z) "
-             "cover the part that is semantics rather than rounding: the Mann-Kendall counters and the int16 autocorrelation sums stay "
-             "inside int64 for every series up to 2^32 steps, so fixed-width and unbounded integers agree. Partial: numba and LLVM are "
+             "cover the part that is semantics rather than rounding: the Mann-Kendall counters, the tie-corrected variance numerator (up to "
+             "1.6 million steps) and the int16 autocorrelation sums (up to 2^32 steps) stay inside int64, so fixed-width and unbounded integers agree. Partial: numba and LLVM are "
              "not modelled; agreement of the floating-point code is observed, not proved.",
         ref="7 (C13)",
         note="Trusted: Coq kernel for the three integer-width theorems (no axioms); tools/impl/interp.py (substitutes C semantics for "
